@@ -37,7 +37,8 @@ ASSUMPTIONS = [
 
 CPU = 3.0
 MAX_STATES = {'quick': 40, 'thorough': 300}
-SEARCH = {'quick': dict(n=6, beam=5, depth=4), 'thorough': dict(n=16, beam=8, depth=6)}
+SEARCH = {'quick': dict(n=6, beam=5, depth=4), 'thorough': dict(n=16, beam=8, depth=6),
+          'template': dict(n=10, beam=6, depth=4)}
 
 
 def content_key(dd, exprs):
@@ -234,6 +235,7 @@ def return_search(dd, exprs, muts, acc, case, n=12, beam=8, depth=6):
 
 
 TEMPLATES = [
+    # one per documented cycle guard / known cycle shape (run in full on every run)
     '(declare-const x Int)\n(declare-const y Int)\n(assert (= x 0))\n(assert (> y 0))\n',
     '(declare-const x Int)\n(declare-const y Int)\n(assert (= x y))\n(assert (> y x))\n',
     '(declare-const x Int)\n(assert (let ((y x)) (> y 0)))\n',
@@ -242,29 +244,47 @@ TEMPLATES = [
     '(define-fun f ((a Int)) Int (+ a 1))\n(declare-const x Int)\n(assert (= (f x) 2))\n',
     '(declare-const s String)\n(assert (str.contains s "ab"))\n',
     '(declare-const x Real)\n(assert (= x 1.5))\n(assert (< x 2.0))\n',
+    # ReplaceByVariable must not offer defined functions (loop with inlining)
+    '(declare-const y Int)\n(define-fun x () Int (+ y 1))\n(assert (> x 0))\n',
+    '(declare-const p Bool)\n(define-fun q () Bool (not p))\n(assert (or q p))\n',
+    # EliminateVariable: target occurs in the replacement
+    '(declare-const x Int)\n(declare-const y Int)\n(assert (= x (* x y)))\n(assert (> x 1))\n',
+    # lets binding a symbol to itself / to another symbol
+    '(declare-const a Int)\n(assert (let ((a a)) (> a 0)))\n',
+    '(declare-const a Int)\n(declare-const b Int)\n(assert (let ((c a) (d b)) (> (+ c d) a)))\n',
+    # constants 0/1 in every notation, symbols named like constants
+    '(declare-const bv1 (_ BitVec 8))\n(assert (= bv1 (bvadd #x01 (_ bv1 8) #b00000010)))\n',
+    '(declare-const x Int)\n(assert (< 0 1 2 x 10 17))\n(assert (= 2.5 (/ 5 2)))\n',
+    # symbol names that shrink to constants / to each other
+    '(declare-const false1 Bool)\n(declare-const x1 Bool)\n(declare-const x Bool)\n(assert (and false1 x1 x))\n',
+    # fresh variables and bit-width reduction
+    '(declare-const v (_ BitVec 8))\n(declare-const w (_ BitVec 4))\n(assert (= v ((_ zero_extend 4) w)))\n',
+    # recursion / self reference
+    '(define-fun f ((a Int)) Int (f a))\n(assert (= (f 1) 1))\n',
+    '(declare-datatype D ((c) (d (s D))))\n(declare-const x D)\n(assert (= x (s (d x))))\n',
+    '(declare-const x Int)\n(assert (! (> x 0) :named n))\n(check-sat-assuming (n))\n',
 ]
 
 
 @st.composite
 def inproc_case(draw):
-    kind = draw(st.sampled_from(['typed', 'typed', 'template', 'damaged']))
-    if kind == 'template':
-        t = draw(st.sampled_from(TEMPLATES))
-        return dict(kind=kind, cmds=refreader.read(t, keep_comments=False))
-    s = draw(gen_typed.script(dict(depth=2, max_asserts=2, max_defs=1, widths=[1, 2, 4, 8])))
+    kind = draw(st.sampled_from(['typed', 'typed', 'shadow', 'damaged']))
+    s = draw(gen_typed.script(dict(depth=2, max_asserts=2, max_defs=1, widths=[1, 2, 4, 8],
+                                   shadow=(kind == 'shadow'), formals_like_globals=(kind == 'shadow'))))
     cmds = s.cmds
     if kind == 'damaged':
         cmds, _ = draw(gen_sexpr.damaged(st.just(cmds), 2))
     return dict(kind=kind, cmds=cmds)
 
 
-def run_inproc(dd, case, acc, tier, muts):
+def run_inproc(dd, case, acc, tier, muts, max_states=None):
     exprs = [model.to_node(dd, c) for c in case['cmds']]
     n_nodes = dd.nodes.count_nodes(exprs)
     if n_nodes > 120:
         acc.skip('input too large')
         return False, {}
-    max_states = MAX_STATES[tier] if n_nodes <= 40 else MAX_STATES[tier] // 4
+    if max_states is None:
+        max_states = MAX_STATES[tier] if n_nodes <= 40 else MAX_STATES[tier] // 4
     st_, ed_, nonshort = bfs_scc(dd, exprs, muts, acc, case, max_states)
     searches = return_search(dd, exprs, muts, acc, case, **SEARCH[tier])
     return nonshort > 0, dict(states=st_, edges=ed_, return_searches=searches, nonshortening_edges=nonshort)
@@ -329,6 +349,12 @@ def shard(ctx, acc):
         acc.case(dict(script=text), nontrivial=nt, classes=['inproc-' + case['kind']],
                  sample=dict(script=text[:400], **stats))
 
+    # the templates, each with the thorough search parameters
+    for i, t in enumerate(TEMPLATES):
+        if i % ctx.nshards == ctx.shard:
+            case = dict(kind='template', cmds=refreader.read(t, keep_comments=False))
+            nt, stats = run_inproc(dd, case, acc, 'template', muts, max_states=60)
+            acc.case(dict(script=t), nontrivial=nt, classes=['inproc-template'], sample=dict(script=t, **stats))
     runner.hyp_run(ctx, inproc_case(), body, ctx.share(total))
     n = [0]
     total2 = 48 if ctx.quick else 1200
